@@ -55,3 +55,15 @@ META["C04"] = M(
          "configurations (plain import; after importing the optional modules that register into the same name registry); "
          "distinct = distinct tuples; every tuple is non-trivial",
     exhaustive=True)
+
+META["C05"] = M(
+    shards={"quick": 16, "thorough": 64}, budget={"quick": 45, "thorough": 800},
+    floors={"quick": {"evals": 6000, "distinct": 1500}, "thorough": {"evals": 300000, "distinct": 50000}},
+    required=["annotation-true", "routine-output-annotation-true", "created-operator-annotation-true",
+              "wrapper-same-action", "wrapper-leaves-argument-alone", "isa-consistent"],
+    rule="expression trees whose leaves carry true declarations (truly Hermitian / PSD / unitary / orthonormal-column matrices "
+         "declared so, real and complex) through scalar multiples (negative, complex, non-unit), sums, products incl. A^T A / "
+         "A^H A / A A^T patterns with identical and merely equal factors, Kronecker, block-diagonal, slices with equal/unequal "
+         "index sets, transposes, adjoints; operators returned by lanczos, arnoldi, eig (all paths), svd, matrix functions, inv "
+         "of unitary; plus every operator constructed on the way (creation tap) densified by cola itself; each reported "
+         "annotation tested on the matrix (symmetry, eigenvalue sign, orthonormality); distinct = canonical structure")
